@@ -39,7 +39,7 @@ def run(ck, an, tier):
 
 def sides(ck, an):
     fq = an.fa("LimitOrderBook.acq_price")
-    tab = sign_table_func(fq, fq.f.params[1])
+    tab = sign_table_or_fail(ck, fq, fq.f.params[1], "S3.execution-side-shape") or {"neg": "?", "pos": "?", "zero": "?", "nan": "?"}
     ck.check(tab["neg"] == "self.bid_price" and tab["pos"] == "self.ask_price", "SIGN", "S3.book-execution-side", fq.f.short, fq.f.loc,
              "acq_price: sell at bid, buy at ask", f"acq_price table {tab}", construct="acq_price")
     fl = an.fa("LimitOrderBook.liq_price")
